@@ -282,6 +282,26 @@ def check (pid : String) (j : Json) : Except String Verdict := do
       r := r.drain cfg
       r := r.compare o oj uni what
       if pid = "C04" then r := r.specFail (c04stalled prev o newSid)
+    | "stalled-ack" =>
+      -- the connection is stalled; one lookup's request is in flight; a response is handled (its acknowledgement waits in
+      -- the queue); lookups of another type miss; observed after the connection resumed
+      let rt ← match rtOfStr (jStrD st "rt" "?") with | some t => pure t | none => throw "stalled-ack: type"
+      let brt ← match rtOfStr (jStrD st "brt" "?") with | some t => pure t | none => throw "stalled-ack: burst type"
+      let v ← jStr st "v"
+      let nonce ← jStr st "nonce"
+      let first ← jStr st "first"
+      let resp : Resp := { rt := rt, version := v, nonce := nonce, slots := ← parseSlots st }
+      r := r.op cfg (.touch brt first now) what
+      r := r.op cfg (.subscribe brt first) what
+      r := r.op cfg (.senderSend false) s!"{what}: the stalled Send (completes when the connection resumes)"
+      r := r.op cfg (.push resp now) what
+      r := { r with issued := r.issued ++ [(o.streams, nonce)] }
+      for n in (← jStrList st "names") do
+        r := r.op cfg (.touch brt n now) what
+        r := r.op cfg (.subscribe brt n) what
+      r := r.drain cfg
+      r := r.compare o oj uni what
+      if pid = "C02" then r := r.specFail (c02stalled prev o rt v nonce resp.decodes)
     | "burst" =>
       -- lookups of distinct uncached names while the connection is stalled; observed after it resumed
       let rt ← match rtOfStr (jStrD st "rt" "?") with | some t => pure t | none => throw "burst: type"
@@ -371,7 +391,7 @@ def check (pid : String) (j : Json) : Except String Verdict := do
     | x => throw s!"unknown step {x}"
     r := r.track o
     if pid = "C03" then
-      if kind != "burst" && kind != "stalled-reconnect" then r := r.specFail (c03 o (nodeOk oj))
+      if kind != "burst" && kind != "stalled-reconnect" && kind != "stalled-ack" then r := r.specFail (c03 o (nodeOk oj))
       let stale := o.closed || !sendOk || r.failing.contains o.streams
       if !stale then r := r.specFail (c03quiescent o (fun rt => (r.lastOnLive.find? (fun e => e.1 = rt)).map (·.2)))
     if pid = "C04" then r := r.specFail (c04nonces o r.issued)
